@@ -146,7 +146,10 @@ type cteInfo struct {
 	cols []string
 }
 
-type colRef struct{ View, Col string }
+type colRef struct {
+	View, Col string
+	Hint      []val.Val // values the column is likely to hold (generation hint only)
+}
 
 type genCtx struct {
 	t        *rapid.T
@@ -158,6 +161,66 @@ type genCtx struct {
 	pool     []val.Val
 	maxDepth int
 	pending  []ref.SelCTE
+	hints    map[string][]val.Val
+}
+
+func (g *genCtx) setHint(view, name string, vs []val.Val) {
+	if len(vs) == 0 {
+		return
+	}
+	g.hints[view+"."+name] = vs
+	g.hints["."+name] = vs
+}
+
+func (g *genCtx) hint(view, name string) []val.Val {
+	if v, ok := g.hints[view+"."+name]; ok {
+		return v
+	}
+	return g.hints["."+name]
+}
+
+// labelHints registers value hints for the output columns of a nested query.
+func (g *genCtx) labelHints(view string, q *ref.SelQuery, labels []string) {
+	for _, l := range labels {
+		var vs []val.Val
+		for _, f := range q.Fields {
+			if f.Alias == l && f.Expr != nil && f.Expr.Kind == "col" {
+				vs = g.hint(f.Expr.View, f.Expr.Col)
+			}
+		}
+		if vs == nil {
+			vs = g.hints["."+l]
+		}
+		if vs != nil {
+			g.hints[view+"."+l] = vs
+		}
+	}
+}
+
+func columnSamples(tb ref.SelTable, col int) []val.Val {
+	seen := map[val.Val]bool{}
+	var out []val.Val
+	step := 1
+	if len(tb.Rows) > 24 {
+		step = len(tb.Rows) / 24
+	}
+	for i := 0; i < len(tb.Rows) && len(out) < 8; i += step {
+		v := tb.Rows[i][col]
+		if !v.IsNull() && v.S != "" && !seen[v] {
+			seen[v] = true
+			out = append(out, v)
+		}
+	}
+	return out
+}
+
+func intLike(vs []val.Val) bool {
+	for _, v := range vs {
+		if _, ok := ref.AsInteger(v); !ok {
+			return false
+		}
+	}
+	return len(vs) > 0
 }
 
 var ownPrefix = []string{"a", "b", "c", "d"}
@@ -325,12 +388,12 @@ func (g *genCtx) refsFor(cols []ref.SelCol, visible []ref.SelCol) []colRef {
 		switch {
 		case c.Join || c.View == "":
 			if count[c.Name] == 1 {
-				out = append(out, colRef{"", c.Name})
+				out = append(out, colRef{"", c.Name, g.hint(c.View, c.Name)})
 			}
 		case count[c.Name] == 1 && fw.Pct(g.t, "bareRef", 30):
-			out = append(out, colRef{"", c.Name})
+			out = append(out, colRef{"", c.Name, g.hint(c.View, c.Name)})
 		default:
-			out = append(out, colRef{c.View, c.Name})
+			out = append(out, colRef{c.View, c.Name, g.hint(c.View, c.Name)})
 		}
 	}
 	return out
@@ -358,6 +421,55 @@ func (g *genCtx) lit() val.Val {
 	return val.Int(int64(fw.Range(g.t, "litInt", -1, 4)))
 }
 
+// litFor draws a literal to compare the operand with: mostly one of the
+// values the column holds.
+func (g *genCtx) litFor(e *ref.SelExpr, refs []colRef) val.Val {
+	if e.Kind == "col" && fw.Pct(g.t, "litFromColumn", 75) {
+		for _, r := range refs {
+			if r.View == e.View && r.Col == e.Col && len(r.Hint) > 0 {
+				v := fw.PickU(g.t, "hintLit", r.Hint)
+				if i, ok := ref.AsInteger(v); ok && (v.K == "I" || fw.Pct(g.t, "litAsInt", 70)) {
+					return val.Int(i + int64(fw.PickU(g.t, "litShift", []int{0, 0, 0, 1, -1})))
+				}
+				return v
+			}
+		}
+	}
+	if e.Kind == "arith" && fw.Pct(g.t, "litIntForArith", 85) {
+		return val.Int(int64(fw.Range(g.t, "litInt", -1, 5)))
+	}
+	return g.lit()
+}
+
+// sameClass picks a reference whose values are of the class (integer-like or
+// not) of r's, if there is one.
+func (g *genCtx) sameClass(r colRef, refs []colRef) colRef {
+	if fw.Pct(g.t, "anyClass", 20) {
+		return fw.PickU(g.t, "ref2", refs)
+	}
+	var same []colRef
+	for _, x := range refs {
+		if len(x.Hint) > 0 && len(r.Hint) > 0 && intLike(x.Hint) == intLike(r.Hint) {
+			same = append(same, x)
+		}
+	}
+	if len(same) == 0 {
+		return fw.PickU(g.t, "ref2", refs)
+	}
+	return fw.PickU(g.t, "ref2same", same)
+}
+
+func refOf(e *ref.SelExpr, refs []colRef) (colRef, bool) {
+	if e.Kind == "col" {
+		for _, r := range refs {
+			if r.View == e.View && r.Col == e.Col {
+				return r, true
+			}
+		}
+	}
+	return colRef{}, false
+}
+
 func (g *genCtx) operand(refs []colRef, allowArith bool) *ref.SelExpr {
 	if len(refs) == 0 {
 		return litE(g.lit())
@@ -370,6 +482,15 @@ func (g *genCtx) operand(refs []colRef, allowArith bool) *ref.SelExpr {
 
 func (g *genCtx) arith(refs []colRef) *ref.SelExpr {
 	op := fw.PickU(g.t, "arithOp", []string{"+", "+", "-", "*"})
+	var ints []colRef
+	for _, r := range refs {
+		if intLike(r.Hint) {
+			ints = append(ints, r)
+		}
+	}
+	if len(ints) > 0 && fw.Pct(g.t, "arithOnInts", 85) {
+		refs = ints
+	}
 	a := colE(fw.PickU(g.t, "arithRef", refs))
 	var b *ref.SelExpr
 	if fw.Pct(g.t, "arithCol", 25) {
@@ -397,9 +518,15 @@ func (g *genCtx) pred(refs []colRef, depth int) *ref.SelExpr {
 	}
 	switch fw.Weighted(g.t, "leaf", []int{36, 20, 12, 12, 10, 10}) {
 	case 0:
-		return &ref.SelExpr{Kind: "cmp", Op: fw.PickU(g.t, "cmpOp", cmpOps), Args: []*ref.SelExpr{g.operand(refs, true), litE(g.lit())}}
+		a := g.operand(refs, true)
+		return &ref.SelExpr{Kind: "cmp", Op: fw.PickU(g.t, "cmpOp", cmpOps), Args: []*ref.SelExpr{a, litE(g.litFor(a, refs))}}
 	case 1:
-		return &ref.SelExpr{Kind: "cmp", Op: fw.PickU(g.t, "cmpOp", cmpOps), Args: []*ref.SelExpr{g.operand(refs, true), g.operand(refs, false)}}
+		a := g.operand(refs, true)
+		b := g.operand(refs, false)
+		if r, ok := refOf(a, refs); ok {
+			b = colE(g.sameClass(r, refs))
+		}
+		return &ref.SelExpr{Kind: "cmp", Op: fw.PickU(g.t, "cmpOp", cmpOps), Args: []*ref.SelExpr{a, b}}
 	case 2:
 		return &ref.SelExpr{Kind: "isnull", Neg: fw.Pct(g.t, "isNotNull", 50), Args: []*ref.SelExpr{g.operand(refs, true)}}
 	case 3:
@@ -408,13 +535,17 @@ func (g *genCtx) pred(refs []colRef, depth int) *ref.SelExpr {
 			if fw.Pct(g.t, "inCol", 15) {
 				args = append(args, g.operand(refs, false))
 			} else {
-				args = append(args, litE(g.lit()))
+				args = append(args, litE(g.litFor(args[0], refs)))
 			}
 		}
 		return &ref.SelExpr{Kind: "in", Neg: fw.Pct(g.t, "notIn", 30), Args: args}
 	case 4:
-		return &ref.SelExpr{Kind: "between", Neg: fw.Pct(g.t, "notBetween", 30),
-			Args: []*ref.SelExpr{g.operand(refs, true), litE(g.lit()), litE(g.lit())}}
+		a := g.operand(refs, true)
+		lo, hi := g.litFor(a, refs), g.litFor(a, refs)
+		if rel, _ := ref.Compare(lo, hi); rel == ref.RelGt && fw.Pct(g.t, "orderBounds", 85) {
+			lo, hi = hi, lo
+		}
+		return &ref.SelExpr{Kind: "between", Neg: fw.Pct(g.t, "notBetween", 30), Args: []*ref.SelExpr{a, litE(lo), litE(hi)}}
 	}
 	// literal-only or mixed comparison the other way round
 	return &ref.SelExpr{Kind: "cmp", Op: fw.PickU(g.t, "cmpOp", cmpOps), Args: []*ref.SelExpr{litE(g.lit()), g.operand(refs, false)}}
@@ -462,6 +593,9 @@ func (g *genCtx) base(depth int, preferCTE bool) (*ref.SelSource, []ref.SelCol, 
 		cols := make([]ref.SelCol, len(c.cols))
 		for i, n := range c.cols {
 			cols[i] = ref.SelCol{View: view, Name: n}
+			if vs := g.hints[c.name+"."+n]; vs != nil {
+				g.hints[view+"."+n] = vs
+			}
 		}
 		return s, cols, map[string]int{view: len(cols)}
 	case 2:
@@ -481,6 +615,7 @@ func (g *genCtx) base(depth int, preferCTE bool) (*ref.SelSource, []ref.SelCol, 
 	cols := make([]ref.SelCol, len(tb.Cols))
 	for i, n := range tb.Cols {
 		cols[i] = ref.SelCol{View: view, Name: n}
+		g.setHint(view, n, columnSamples(tb, i))
 	}
 	return s, cols, map[string]int{view: len(cols)}
 }
@@ -492,6 +627,7 @@ func (g *genCtx) subquery(depth int, outer []ref.SelCol, lateral bool) (*ref.Sel
 	for i, n := range labels {
 		cols[i] = ref.SelCol{View: s.Alias, Name: n}
 	}
+	g.labelHints(s.Alias, q, labels)
 	return s, cols, map[string]int{s.Alias: len(cols)}
 }
 
@@ -860,6 +996,14 @@ func (g *genCtx) cte() {
 			}
 			c.Cols = cols
 		}
+		g.labelHints(name, q, labels)
+		if len(c.Cols) > 0 {
+			for i, l := range labels {
+				if vs := g.hints[name+"."+l]; vs != nil {
+					g.hints[name+"."+c.Cols[i]] = vs
+				}
+			}
+		}
 		g.ctesAppend(c, cols)
 	case 1: // bounded counter
 		col := fw.PickU(g.t, "countCol", []string{"n", "k"})
@@ -872,7 +1016,7 @@ func (g *genCtx) cte() {
 			rec.Alias, rec.As = g.alias(), fw.Pct(g.t, "as", 40)
 			view = rec.Alias
 		}
-		cr := colRef{view, col}
+		cr := colRef{View: view, Col: col}
 		if fw.Pct(g.t, "recBare", 50) {
 			cr.View = ""
 		}
@@ -883,6 +1027,7 @@ func (g *genCtx) cte() {
 		}
 		c := ref.SelCTE{Name: name, Cols: []string{col}, Recursive: true,
 			Query: &ref.SelQuery{Fields: []ref.SelField{{Expr: intLit(lo)}}}, Step: step}
+		g.hints[name+"."+col] = []val.Val{val.Int(int64(lo)), val.Int(int64(lo + 1)), val.Int(int64(hi))}
 		g.ctesAppend(c, c.Cols)
 	case 2: // bounded traversal of an edge table
 		e := fw.PickU(g.t, "edgeTable", small)
@@ -898,8 +1043,8 @@ func (g *genCtx) cte() {
 			a := g.alias()
 			base = &ref.SelQuery{
 				From:   []*ref.SelSource{{Kind: "table", Name: e.Name, Alias: a}},
-				Where:  &ref.SelExpr{Kind: "isnull", Neg: true, Args: []*ref.SelExpr{colE(colRef{a, src})}},
-				Fields: []ref.SelField{{Expr: colE(colRef{a, src})}, {Expr: intLit(0)}},
+				Where:  &ref.SelExpr{Kind: "isnull", Neg: true, Args: []*ref.SelExpr{colE(colRef{View: a, Col: src})}},
+				Fields: []ref.SelField{{Expr: colE(colRef{View: a, Col: src})}, {Expr: intLit(0)}},
 			}
 		} else {
 			base = &ref.SelQuery{Fields: []ref.SelField{{Expr: litE(g.lit())}, {Expr: intLit(0)}}}
@@ -912,11 +1057,11 @@ func (g *genCtx) cte() {
 		}
 		ea := g.alias()
 		edge := &ref.SelSource{Kind: "table", Name: e.Name, Alias: ea}
-		link := &ref.SelExpr{Kind: "cmp", Op: "=", Args: []*ref.SelExpr{colE(colRef{ea, src}), colE(colRef{rview, node})}}
-		limit := &ref.SelExpr{Kind: "cmp", Op: "<", Args: []*ref.SelExpr{colE(colRef{rview, "d"}), intLit(bound)}}
+		link := &ref.SelExpr{Kind: "cmp", Op: "=", Args: []*ref.SelExpr{colE(colRef{View: ea, Col: src}), colE(colRef{View: rview, Col: node})}}
+		limit := &ref.SelExpr{Kind: "cmp", Op: "<", Args: []*ref.SelExpr{colE(colRef{View: rview, Col: "d"}), intLit(bound)}}
 		step := &ref.SelQuery{Fields: []ref.SelField{
-			{Expr: colE(colRef{ea, dst})},
-			{Expr: &ref.SelExpr{Kind: "arith", Op: "+", Args: []*ref.SelExpr{colE(colRef{rview, "d"}), intLit(1)}}},
+			{Expr: colE(colRef{View: ea, Col: dst})},
+			{Expr: &ref.SelExpr{Kind: "arith", Op: "+", Args: []*ref.SelExpr{colE(colRef{View: rview, Col: "d"}), intLit(1)}}},
 		}}
 		if fw.Pct(g.t, "stepJoin", 60) {
 			step.From = []*ref.SelSource{{Kind: "join", JoinType: "INNER", Left: rec, Right: edge, On: link}}
@@ -926,6 +1071,12 @@ func (g *genCtx) cte() {
 			step.Where = &ref.SelExpr{Kind: "and", Args: []*ref.SelExpr{link, limit}}
 		}
 		c := ref.SelCTE{Name: name, Cols: []string{node, "d"}, Recursive: true, Query: base, Step: step}
+		for i, cn := range e.Cols {
+			if cn == dst {
+				g.hints[name+"."+node] = columnSamples(e, i)
+			}
+		}
+		g.hints[name+".d"] = []val.Val{val.Int(0), val.Int(1), val.Int(2)}
 		g.ctesAppend(c, c.Cols)
 	}
 }
@@ -966,7 +1117,7 @@ func genCase(t *rapid.T) selCase {
 	default:
 		c.CPU = fw.PickU(t, "cpuLarge", []int{4, 4, 4, 2, 3})
 	}
-	g := &genCtx{t: t, tables: c.Tables, used: map[string]bool{}, pool: valuePool(c.Tables), maxDepth: 2}
+	g := &genCtx{t: t, tables: c.Tables, used: map[string]bool{}, pool: valuePool(c.Tables), maxDepth: 2, hints: map[string][]val.Val{}}
 	if size == "large" {
 		g.maxDepth = 1
 	}
@@ -980,6 +1131,13 @@ func genCase(t *rapid.T) selCase {
 	q.With = g.pending
 	if avoidKnownJoinBindsRight {
 		joinBindsRightShape(q, true)
+	}
+	if size != "large" && q.Where != nil {
+		// too many generated conditions select nothing: drop the outermost
+		// WHERE of most queries whose result would be empty
+		if r, err := ref.SelEval(c.Tables, q, ref.SelReading{}); err == nil && len(r.Rows) == 0 && fw.Pct(t, "dropEmptyWhere", 75) {
+			q.Where = nil
+		}
 	}
 	c.Query = q
 	c.SQL = ref.SelSQL(q)
@@ -1222,35 +1380,24 @@ func checkCase(c selCase) (fw.Outcome, *fw.Violation) {
 		return o, nil
 	}
 	sql := ref.SelSQL(c.Query)
-	// reference under both readings of the open text rung
-	want, err := ref.SelEval(c.Tables, c.Query, false)
-	if err != nil {
-		if se, ok := err.(*ref.SelError); ok && (se.Kind == "too_big" || se.Kind == "no_termination") {
-			o.Discard = true
-			fw.AddExtra("discarded_"+se.Kind, 1)
-			return o, nil
-		}
-		return o, fw.Harness("the reference cannot evaluate %s: %v", sql, err)
-	}
-	wantText := want
-	if want.Stats.OpenCmp {
-		if wantText, err = ref.SelEval(c.Tables, c.Query, true); err != nil {
+	// reference under the base reading of the outcomes the manual leaves open
+	evalRef := func(rd ref.SelReading) (*ref.SelResult, bool, *fw.Violation) {
+		r, err := ref.SelEval(c.Tables, c.Query, rd)
+		if err != nil {
 			if se, ok := err.(*ref.SelError); ok && (se.Kind == "too_big" || se.Kind == "no_termination") {
-				o.Discard = true
 				fw.AddExtra("discarded_"+se.Kind, 1)
-				return o, nil
+				return nil, true, nil
 			}
-			return o, fw.Harness("the reference cannot evaluate %s: %v", sql, err)
+			return nil, false, fw.Harness("the reference cannot evaluate %s: %v", sql, err)
 		}
+		return r, false, nil
+	}
+	want, discard, hv := evalRef(ref.SelReading{})
+	if discard || hv != nil {
+		o.Discard = discard
+		return o, hv
 	}
 	st := want.Stats
-	if st.RightUsingOpen {
-		// RIGHT JOIN ... USING over two different spellings of equal values:
-		// which spelling the merged column shows is not documented
-		o.Discard = true
-		fw.AddExtra("discarded_right_using_spelling", 1)
-		return o, nil
-	}
 	commaDefect := commaListDefectShape(c.Query)
 	bindsRight := joinBindsRightShape(c.Query, false)
 	if (avoidKnownJoinBindsRight && bindsRight) || (avoidKnownLateralEmptyLeft && st.LateralEmptyLeft) || (avoidKnownStarDuplicateUsingColumn && st.DupJoinStar) || (avoidKnownCommaListSyntax && commaDefect) {
@@ -1272,6 +1419,9 @@ func checkCase(c selCase) (fw.Outcome, *fw.Violation) {
 	}
 	if st.OpenCmp {
 		o.Classes = append(o.Classes, "open_text_rung_compared")
+	}
+	if st.RightUsingOpen {
+		o.Classes = append(o.Classes, "right_using_values_differ")
 	}
 	if len(want.Rows) == 0 {
 		o.Classes = append(o.Classes, "empty_result")
@@ -1329,19 +1479,32 @@ func checkCase(c selCase) (fw.Outcome, *fw.Violation) {
 		}
 	}
 	sig, msg := compareRows(got.Rows, want.Rows, want.Ordered)
-	reading := "unknown"
-	if sig != "" && st.OpenCmp {
-		if s2, _ := compareRows(got.Rows, wantText.Rows, wantText.Ordered); s2 == "" {
-			sig, reading = "", "text"
-			st = wantText.Stats
-			want = wantText
+	reading := ref.SelReading{}
+	if sig != "" && (st.OpenCmp || st.RightUsingOpen) {
+		// the other readings (whole query under one reading)
+		for _, rd := range []ref.SelReading{{RightUsing: true}, {OpenText: true}, {OpenText: true, RightUsing: true}} {
+			alt, discard, hv := evalRef(rd)
+			if discard || hv != nil {
+				o.Discard = discard
+				return o, hv
+			}
+			if len(alt.Labels) != len(want.Labels) {
+				continue
+			}
+			if s2, _ := compareRows(got.Rows, alt.Rows, alt.Ordered); s2 == "" {
+				sig, reading, want, st = "", rd, alt, alt.Stats
+				break
+			}
 		}
 	}
 	if sig != "" {
 		return o, fw.V(special(sig), "%s (cpu %d): %s", sql, c.CPU, msg)
 	}
 	if st.OpenCmp {
-		o.Classes = append(o.Classes, "open_rung_reading:"+reading)
+		o.Classes = append(o.Classes, fmt.Sprintf("reading:open_rung_as_text=%v", reading.OpenText))
+	}
+	if st.RightUsingOpen {
+		o.Classes = append(o.Classes, fmt.Sprintf("reading:right_using_shows_right=%v", reading.RightUsing))
 	}
 	// non-trivial: >=1 join or nested query, a non-empty result and (for outer
 	// joins) a padded row; or a WHERE keeping a strict non-empty subset
@@ -1361,7 +1524,7 @@ func TestC03Select(t *testing.T) {
 		Assumptions: []string{
 			"values are integers, short non-numeric strings and NULL; an Integer compared with a non-numeric String ends at the text rung, which the manual leaves open: csvq must agree with the reference under one of the two readings (UNKNOWN / comparison of the texts) for the whole query",
 			"column names differ between tables except k/k2 (meant for NATURAL/USING); references are qualified, or bare only when the name is unique among all visible columns; merged USING/NATURAL columns are referenced bare; view.* is only used for views without merged columns; subqueries are always aliased and have distinct output names",
-			"merged columns: COALESCE(left, right), first in USING/left-side order, then the remaining left and right columns (SQL standard; the manual is silent); for RIGHT joins the spelling of a merged value that differs between the sides is not asserted (case discarded)",
+			"merged columns: COALESCE(left, right), first in USING/left-side order, then the remaining left and right columns (SQL standard; the manual is silent); for RIGHT joins a merged value whose spelling or type differs between the sides may be either side's (one reading for the whole query)",
 			"NATURAL JOIN without common columns is a join without condition (every pair matches)",
 			"recursive CTEs only in forms that terminate by a bound on a counter column and use UNION ALL",
 			fmt.Sprintf("cases of reported defect shapes are put aside while these are true: avoidKnownLateralEmptyLeft=%v avoidKnownStarDuplicateUsingColumn=%v avoidKnownCommaListSyntax=%v avoidKnownJoinBindsRight=%v", avoidKnownLateralEmptyLeft, avoidKnownStarDuplicateUsingColumn, avoidKnownCommaListSyntax, avoidKnownJoinBindsRight),
@@ -1404,19 +1567,19 @@ func (c nameCase) query() *ref.SelQuery {
 	var bad *ref.SelExpr
 	switch c.Kind {
 	case "unknown_bare":
-		bad = colE(colRef{"", "zz"})
+		bad = colE(colRef{View: "", Col: "zz"})
 	case "unknown_qualified":
-		bad = colE(colRef{"x", "zz"})
+		bad = colE(colRef{View: "x", Col: "zz"})
 	case "unknown_view":
-		bad = colE(colRef{"q", "k"})
+		bad = colE(colRef{View: "q", Col: "k"})
 	default:
-		bad = colE(colRef{"", "k"})
+		bad = colE(colRef{View: "", Col: "k"})
 	}
 	x := &ref.SelSource{Kind: "table", Name: "t1", Alias: "x"}
 	y := &ref.SelSource{Kind: "table", Name: "t2", Alias: "y"}
 	tru := litE(val.Tern(1))
 	badCond := &ref.SelExpr{Kind: "cmp", Op: "=", Args: []*ref.SelExpr{bad, litE(val.Int(1))}}
-	q := &ref.SelQuery{Fields: []ref.SelField{{Expr: colE(colRef{"x", "a1"})}}}
+	q := &ref.SelQuery{Fields: []ref.SelField{{Expr: colE(colRef{View: "x", Col: "a1"})}}}
 	on := tru
 	if c.Pos == "on" {
 		on = badCond
@@ -1465,7 +1628,7 @@ func checkNameCase(c nameCase) (fw.Outcome, *fw.Violation) {
 	q := c.query()
 	sql := ref.SelSQL(q)
 	o.Classes = []string{"kind:" + c.Kind, "pos:" + c.Pos, "join:" + c.Join}
-	_, err := ref.SelEval(c.Tables, q, false)
+	_, err := ref.SelEval(c.Tables, q, ref.SelReading{})
 	se, isSel := err.(*ref.SelError)
 	wantKind := "unknown_column"
 	if c.Kind == "ambiguous" {
@@ -1499,7 +1662,7 @@ func TestC03NameErrors(t *testing.T) {
 	fw.Run(t, fw.Spec[nameCase]{
 		ID: "C03", Name: "name_errors", Quick: 600, Thorough: 12000,
 		Gen: genNameCase, Check: checkNameCase,
-		Rule: "two non-empty tables sharing column k, joined by comma/CROSS/INNER/LEFT; one reference the reference interpreter cannot resolve (unknown bare name, unknown column of a known qualifier, unknown qualifier) or that is ambiguous (bare k) is placed in the select list, the WHERE or the ON condition where it is evaluated for at least one row: csvq must end with an ordinary error (error class only; recorded in the histogram); distinct by (kind, position, join)",
+		Rule:        "two non-empty tables sharing column k, joined by comma/CROSS/INNER/LEFT; one reference the reference interpreter cannot resolve (unknown bare name, unknown column of a known qualifier, unknown qualifier) or that is ambiguous (bare k) is placed in the select list, the WHERE or the ON condition where it is evaluated for at least one row: csvq must end with an ordinary error (error class only; recorded in the histogram); distinct by (kind, position, join)",
 		Assumptions: []string{"csvq resolves names when an expression is evaluated: a bad reference that is never evaluated (empty input, short-circuited AND/OR) is not reported by csvq; such placements are not generated"},
 	})
 }
